@@ -13,6 +13,7 @@ recorded from the real Path objects and validated by TLC (spec/Trace_C18.tla) ag
 sequence operators; random longer expressions are round-tripped and their evaluation validated by
 spec/Trace_C02.tla.
 """
+import copy
 import json
 import pickle
 import random
@@ -126,12 +127,13 @@ def safe_repr(x):
 
 def roundtrip(r):
     """a Path produced by a sequence operation is itself a faithful value"""
-    try:
-        z = pickle.loads(pickle.dumps(r))
-    except Exception as e:
-        return 'pickling the resulting path %s fails with %s' % (safe_repr(r), type(e).__name__)
-    if z.items() != r.items() or get_ops(z)[0] is not get_ops(r)[0]:
-        return 'pickle round trip changes the resulting path %s into %s' % (safe_repr(r), safe_repr(z))
+    for proto in range(pickle.HIGHEST_PROTOCOL + 1):          # every protocol, and copy / deepcopy
+        try:
+            z = pickle.loads(pickle.dumps(r, protocol=proto))
+        except Exception as e:
+            return 'pickling the resulting path %s with protocol %d fails with %s' % (safe_repr(r), proto, type(e).__name__)
+        if z.items() != r.items() or get_ops(z)[0] is not get_ops(r)[0]:
+            return 'pickle round trip (protocol %d) changes the resulting path %s into %s' % (proto, safe_repr(r), safe_repr(z))
     try:
         y = eval(repr(r), dict(NS))
     except Exception as e:
@@ -240,12 +242,16 @@ def check_expr(st, out):
         return 'eval(repr(x)) records different operations: repr %s gives %s' % (r, safe_repr(y)[:80])
     if repr(y) != r:
         return 'repr(eval(repr(x))) = %s differs from %s' % (repr(y), r)
-    try:
-        z = pickle.loads(pickle.dumps(x))
-    except Exception as e:
-        return 'pickle round trip fails with %s for %s' % (type(e).__name__, r)
-    if not ops_equal(tuple(get_ops(x)), tuple(get_ops(z))) or get_ops(x)[0] is not get_ops(z)[0] or repr(z) != r:
-        return 'pickle round trip changes %s into %r' % (r, z)
+    for proto in range(pickle.HIGHEST_PROTOCOL + 1):
+        try:
+            z = pickle.loads(pickle.dumps(x, protocol=proto))
+        except Exception as e:
+            return 'pickle round trip (protocol %d) fails with %s for %s' % (proto, type(e).__name__, r)
+        if not ops_equal(tuple(get_ops(x)), tuple(get_ops(z))) or get_ops(x)[0] is not get_ops(z)[0] or repr(z) != r:
+            return 'pickle round trip (protocol %d) changes %s into %r' % (proto, r, z)
+    for how, z in (('copy.copy', copy.copy(x)), ('copy.deepcopy', copy.deepcopy(x))):
+        if not ops_equal(tuple(get_ops(x)), tuple(get_ops(z))) or get_ops(x)[0] is not get_ops(z)[0] or repr(z) != r:
+            return '%s changes %s into %r' % (how, r, z)
     # equality takes the root into account: the same steps under another root are a different value
     for other in ('T', 'S', 'A'):
         if other != root and all(o['op'] in ('.', '[', 'P') for o in ops):
